@@ -17,7 +17,9 @@ const rule = "a case is a Go type assembled with reflect.SliceOf/MapOf/PtrTo/Str
 	"history of 1-3 earlier values of the same type that the destination of a second conversion (ReflectTo) went through; family static: " +
 	"statically declared Go types that reflect cannot assemble (defined scalar, slice and map types such as type Blob []byte, net.IP, []Octet, " +
 	"map[Label]Octet; structs that embed structs first / in the middle / last, by value and by pointer, with and without a declared parent " +
-	"type), each bare, behind a pointer, as slice element and as map value, x boundary and random values; a case is non-trivial when its value holds a non-empty container, a " +
+	"type), each bare, behind a pointer, as slice element and as map value, x boundary and random values; family typeset: argument lists of " +
+	"Reflector.TypeSetFromReflect over 17 static struct types (bases, several children of one base, grandchildren, unrelated plain structs, structs whose embedded first field is a pointer or a defined scalar) - small sets in every " +
+	"valid order, random closed subsets in random valid orders, members as struct or pointer type, with aliases and nested type set names - x values of every member; a case is non-trivial when its value holds a non-empty container, a " +
 	"non-nil pointer/interface, or a scalar at the minimum or maximum of its kind; distinct = distinct (type, value) texts"
 
 func newCasesFile() *lib.CasesFile {
@@ -81,6 +83,7 @@ type runner struct {
 	shard  int             // number of cases files already written for the current family
 	ncf    *lib.CasesFile  // cases of the static family
 	acSeen map[string]bool // struct types whose attribute derivation was emitted
+	tsSeen map[string]bool // argument lists of TypeSetFromReflect whose entries were emitted
 }
 
 // flush writes the cases file of the current family when it is full and starts the next shard.
@@ -232,6 +235,17 @@ func main() {
 		}
 	}
 	res.Extra["static_cases"] = nst
+	// 5. type sets: Reflector.TypeSetFromReflect over lists of the static struct types in every order (typeset.go)
+	specs := tsSpecs(rng.Fork(), cfg.Thorough())
+	nts := 0
+	for li, t := range specs {
+		for ci, cs := range tsCases(rng.Fork(), t, 2) {
+			r.process(cs, (li+ci+int(cfg.Seed))%7 == 0, nil)
+			nts++
+		}
+	}
+	res.Extra["typeset_lists"] = len(specs)
+	res.Extra["typeset_cases"] = nts
 	r.finishStatic()
 	res.Write(cfg)
 }
@@ -262,6 +276,12 @@ func replay(r *runner) {
 		cs.Family = "replay"
 		o := runCase(cs)
 		fmt.Printf("Go type    : %s\nGo value   : %s\n", cs.S.String(), cs.V.Text(cs.S))
+		if cs.TS != nil {
+			fmt.Printf("type set   : %s\n", cs.TS.text())
+			for _, d := range o.TSet {
+				fmt.Printf("             %s => %s parent=%q own attributes %v constructor attributes %v\n", d.Key, d.Name, d.Parent, d.Own, d.All)
+			}
+		}
 		if o.RegErr != "" {
 			fmt.Printf("deriving the object types fails: %s %s\n", o.RegErr, o.RegText)
 		}
